@@ -441,6 +441,60 @@ def _do_pending(docs, out, append_under_lock):
     out.append("")
 
 
+def _eventfd_call(docs, fn_name, callee_name, what):
+    """`sockets::<callee>(wakeupFd_, &v, sizeof v)` with a local `uint64_t v`: (value `v` is initialised with, or None)"""
+    fn = the_function(docs, fn_name, nparams=0)
+    calls = []
+    for n in walk(body_of(fn)):
+        if n.get("kind") == "CallExpr":
+            c = strip(kids(n)[0])
+            if c.get("kind") == "DeclRefExpr" and c.get("referencedDecl", {}).get("name") == callee_name:
+                calls.append(n)
+    if len(calls) != 1:
+        raise ExtractError("%s: expected exactly one %s() call, found %d" % (what, callee_name, len(calls)))
+    args = kids(calls[0])[1:]
+    if len(args) != 3 or _member_name(args[0]) != "wakeupFd_":
+        raise ExtractError("%s: %s() is not called on wakeupFd_" % (what, callee_name))
+    buf = strip(args[1])
+    while buf.get("kind") in ("ImplicitCastExpr", "CStyleCastExpr") and kids(buf):
+        buf = strip(kids(buf)[0])
+    if buf.get("kind") != "UnaryOperator" or buf.get("opcode") != "&":
+        raise ExtractError("%s: the buffer is not the address of a local" % what)
+    var = strip(kids(buf)[0])
+    if var.get("kind") != "DeclRefExpr":
+        raise ExtractError("%s: the buffer is not the address of a local" % what)
+    name = var["referencedDecl"]["name"]
+    decl = None
+    for n in walk(body_of(fn)):
+        if n.get("kind") == "VarDecl" and n.get("name") == name:
+            decl = n
+    if decl is None or "uint64_t" not in ctype(decl):
+        return False, None
+    size = strip(args[2])
+    ok = False
+    if size.get("kind") == "UnaryExprOrTypeTraitExpr" and size.get("name") == "sizeof":
+        ks = kids(size)
+        if ks and strip(ks[0]).get("kind") == "DeclRefExpr" and strip(ks[0])["referencedDecl"]["name"] == name:
+            ok = True
+        if not ks and "uint64_t" in size.get("argType", {}).get("qualType", ""):
+            ok = True
+    elif size.get("kind") == "IntegerLiteral" and int(size["value"]) == 8:
+        ok = True
+    init = strip(kids(decl)[-1]) if kids(decl) else None
+    val = int(init["value"]) if init is not None and init.get("kind") == "IntegerLiteral" else None
+    return ok, val
+
+
+def _eventfd(docs, out):
+    ok_w, val = _eventfd_call(docs, "wakeup", "write", "EventLoop::wakeup")
+    ok_r, _ = _eventfd_call(docs, "handleRead", "read", "EventLoop::handleRead")
+    _flag(out, "wakeupWritesOne", bool(ok_w and val is not None and val > 0),
+          "`EventLoop::wakeup`: writes a whole non-zero `uint64_t` to `wakeupFd_` (the eventfd counter becomes positive)")
+    _flag(out, "handleReadDrains", bool(ok_r),
+          "`EventLoop::handleRead`: reads a whole `uint64_t` from `wakeupFd_` (the eventfd counter is reset)")
+    out.append("")
+
+
 # ----------------------------------------------------------------------------- EventLoopThread
 
 def _loop_ptr_test(cond, op):
@@ -580,6 +634,7 @@ def generate():
     _quit(docs, out)
     _loop(docs, out)
     _do_pending(docs, out, under_lock)
+    _eventfd(docs, out)
     _elt_dtor(tdocs, out)
     _elt_thread_func(tdocs, out)
     _elt_start_loop(tdocs, out)
